@@ -16,7 +16,8 @@ META = dict(
          'instance through the real TaskEventsManager.process_message, '
          'TaskActionTimer.next and TaskJobManager._set_retry_timers: the '
          'outcome of every step (submission accepted / submission failed / '
-         'started / failed / failed before the started message / succeeded / '
+         'started / failed / failed before the started message / a poll '
+         'reporting that the submitted job never ran / succeeded / '
          'a duplicate or stale-job failure message injected at any point) is '
          'symbolic. z3 decides on every path that a task with N execution '
          'and M submission retry delays is submitted at most (N+1)(M+1) '
@@ -144,6 +145,24 @@ def _life(cfg_i, choices):
                 if (itask.state.status != 'succeeded'
                         or (itask.identity, 'succeeded') not in spawned):
                     return False
+                continue
+            if st == 'submitted' and c == 2:
+                # a poll finds that the submitted job never ran
+                msg('submission failed', TaskEventsManager.FLAG_POLLED,
+                    sev=logging.CRITICAL)
+                sub_fail += 1
+                nsf = [o for _i, o in spawned if o == 'submit-failed']
+                if sub_fail <= M:
+                    if (itask.state.status != 'waiting'
+                            or not retry_pending()
+                            or out.is_message_complete('submit-failed')
+                            or nsf):
+                        return False
+                else:
+                    if (itask.state.status != 'submit-failed'
+                            or not out.is_message_complete('submit-failed')
+                            or nsf != ['submit-failed']):
+                        return False
                 continue
             # c in (1, 2): the job fails (1: plain, 2: with a signal)
             msg('failed' if c == 1 else 'failed/TERM', sev=logging.CRITICAL)
